@@ -16,7 +16,7 @@ func init() {
 	register(&core.Property{
 		ID:    "C09",
 		Title: "Ordered results are globally sorted; limit/offset is a window of them",
-		Decides: "every merge-heap / batch-sort comparator on the ordered-query paths induces exactly the order it must (key, direction flag, tie-breaks), over every weak ordering of its operands: iter/sort containerHeap, stream/sidx blockCursorHeap, sidx QueryResponseHeap, trace sidxStreamHeap, model.StreamResultHeap, the part/block merge heaps of measure, stream, trace and sidx, the batch sorters, SeriesList; " +
+		Decides: "the two sidx heaps that feed descending scans order blocks with the max-key-first comparator, and that comparator is exactly lex(max key↓, min key↓, series↓, offset↓); every merge-heap / batch-sort comparator on the ordered-query paths induces exactly the order it must (key, direction flag, tie-breaks), over every weak ordering of its operands: iter/sort containerHeap, stream/sidx blockCursorHeap, sidx QueryResponseHeap, trace sidxStreamHeap, model.StreamResultHeap, the part/block merge heaps of measure, stream, trace and sidx, the batch sorters, SeriesList; " +
 			"k-way mergers restore the heap (Fix/Pop) after advancing the top cursor before reading it again; in the distributed measure plan the limit handed to data nodes is offset+limit; the sidx cursor builder records a payload as seen only for elements inside the key range; the time window of an index-sorted stream batch offers every document to both its minimum and its maximum.; in the time-ordered stream scan the boundary of a growing group of overlapping parts is only ever raised (compared with its previous value, or max)",
 		NotDecided: "that each input cursor is itself sorted, duplicates, early termination, exactly-once delivery of secondary-index entries, the composition of per-node windows into the global window.",
 		Technique:  "finite-domain abstract interpretation of comparator syntax trees; CFG must-follow for heap discipline; SSA def-use of the pushed-down limit; guarded-call (seen only when in range); per-iteration must-test of sibling accumulators",
@@ -49,7 +49,27 @@ func runC09(c *core.Ctx) {
 	r.cmpLex(rule, sibX.pkg, "(*blockMetadata).less", ro, "lex(seriesID↑, min key↑)", kspec{Match: "seriesID"}, kspec{Match: "minKey"})
 	r.cmpLex(rule, sibX.pkg, "(*partMergeIterHeap).Less", ij, "lex(seriesID↑, min key↑)", kspec{Match: "seriesID"}, kspec{Match: "minKey"})
 	r.cmpLex(rule, sibX.pkg, "(*blockMetadata).lessByKey", ro, "lex(min key↑, max key↑, seriesID↑, data offset↑)", kspec{Match: "minKey"}, kspec{Match: "maxKey"}, kspec{Match: "seriesID"}, kspec{Match: "dataBlock.offset"})
-	r.Floor(rule, 20)
+	// descending scans consume each block from its maximum key downwards, so their heaps must visit blocks by
+	// descending MAX key; ordering by descending min key hides a wide block holding the greatest key (F45)
+	r.cmpLex(rule, sibX.pkg, "(*blockMetadata).greaterByKey", ro, "lex(max key↓, min key↓, seriesID↓, data offset↓)", kspec{Match: "maxKey", Desc: true}, kspec{Match: "minKey", Desc: true}, kspec{Match: "seriesID", Desc: true}, kspec{Match: "dataBlock.offset", Desc: true})
+	r.Floor(rule, 21)
+	{
+		rule := "c09.desc-scan-by-max-key"
+		gbk := "(*" + sibX.pkg + ".blockMetadata).greaterByKey"
+		for _, n := range []string{"(*partKeyIterHeap).Less", "(*seriesCursor).less"} {
+			f := r.fn(rule, sibX.pkg, n)
+			if f == nil {
+				continue
+			}
+			construct := ssax.FuncName(f) + ": the descending order is the max-key-first comparator"
+			if len(ssax.Find(f, call(gbk).M)) > 0 {
+				r.Hold(rule, construct, r.fpos(f), "")
+			} else {
+				r.Violate(rule, construct, r.fpos(f), "the heap that feeds descending scans does not order blocks with greaterByKey (max key first): reversing the ascending min-key order lets a wide block holding the greatest key sink behind narrower blocks, and a bounded DESC query stops before reaching it")
+			}
+		}
+		r.Floor(rule, 2)
+	}
 	if r.Tier == "thorough" {
 		// discovery: comparators in the anchored packages that have no spec here (a warning for the
 		// maintainer of the rule tables, never a violation)
